@@ -20,7 +20,7 @@ REQUIRED_THEOREMS = ["Gv.Props.C20." + n for n in [
     "weightsGamma_every_seed", "weightsDirichlet_every_seed",
     # discrete gamma / incomplete gamma
     "discreteGamma_mean_one", "discreteGamma_nonneg_of_monotone_primitive", "discreteGamma_nondecreasing_partial",
-    "incompleteGamma_series_is_partial_sum", "incompleteGamma_series_terminates", "incompleteGamma_series_branch_value",
+    "incompleteGamma_series_is_partial_sum", "incompleteGamma_series_terminates", "incompleteGamma_series_branch_value", "incompleteGamma_series_prefactor",
     "incompleteGamma_guards", "cfStep_dead_branch"]]
 LEVEL_TEXT = (
     "Lean/Mathlib theorems over the reals about hand-written models (lean/Gv/Model/Weights.lean, generic in the numeric type) of "
